@@ -12,6 +12,7 @@ import (
 	"crypto/rand"
 	"encoding/json"
 	"fmt"
+	"sort"
 	"strings"
 
 	"github.com/btcsuite/btcutil/base58"
@@ -231,7 +232,15 @@ func (v *VDR) Create(did *docdid.Doc,
 		return nil, err
 	}
 
+	// iterate in sorted key id order: the order of the keys is part of the create request and so of the DID
+	ids := make([]string, 0, len(pks))
 	for k := range pks {
+		ids = append(ids, k)
+	}
+
+	sort.Strings(ids)
+
+	for _, k := range ids {
 		createOpt = append(createOpt, create.WithPublicKey(pks[k].publicKey))
 	}
 
